@@ -8,6 +8,7 @@ package main
 import (
 	"context"
 	"fmt"
+	"reflect"
 
 	corev1 "k8s.io/api/core/v1"
 	discoveryv1 "k8s.io/api/discovery/v1"
@@ -42,6 +43,19 @@ type kubeSvcDef struct {
 	SvcAnnotations []map[string]string
 	// PodOnly: pods without a Service / EndpointSlice (selected by ServiceEntry workload selectors)
 	PodOnly bool
+	// SvcPortName, when set, gives the name of the service port (and of the slice port) per variant ("" = PortName):
+	// the name decides the protocol (http -> HTTP, tcp -> TCP)
+	SvcPortName []string
+	// SliceOnly: no Service of its own - an additional EndpointSlice (plus its pods) labelled for the Service named in
+	// SliceService[variant] with port SlicePort[variant] / name SlicePortName[variant]: a second slice of a Service, and a
+	// slice that is RELABELLED from one Service to another
+	SliceOnly     bool
+	SliceService  []string
+	SlicePort     []int32
+	SlicePortName []string
+	// SvcLabels: labels of the Service; LBIP: when set, the Service is of type LoadBalancer with this ingress IP per variant
+	SvcLabels map[string]string
+	LBIP      []string
 	// SharedPods: the pods named in Variants exist independently of this object (it only lists them in its slice)
 	SharedPods bool
 	// Permanent: the pod exists in every world (it is the pod of a connected proxy, which does not outlive its pod);
@@ -77,8 +91,17 @@ var kubeUniverse = []kubeSvcDef{
 			{pd("k1", "10.41.0.1", "sa-k1")},
 			// 7: pods sharing one service account
 			{pd("k1", "10.41.0.1", "sa-k1"), pd("k3", "10.41.0.3", "sa-k1")},
+			// 8, 9, 10: exported to NOBODY (exportTo "~"), with one pod, no pod, two pods: endpoint changes while nobody may
+			// be pushed must still reach the endpoint index
+			{pd("k1", "10.41.0.1", "sa-k1")},
+			{},
+			{pd("k1", "10.41.0.1", "sa-k1"), pd("k2", "10.41.0.2", "sa-k2")},
+			// 11: like 0 with the port named tcp (the Service spec itself changes: protocol)
+			{pd("k1", "10.41.0.1", "sa-k1")},
 		},
-		SvcAnnotations: []map[string]string{nil, nil, nil, nil, nil, nil, {"networking.istio.io/exportTo": "."}, nil},
+		SvcAnnotations: []map[string]string{nil, nil, nil, nil, nil, nil, {"networking.istio.io/exportTo": "."}, nil,
+			{"networking.istio.io/exportTo": "~"}, {"networking.istio.io/exportTo": "~"}, {"networking.istio.io/exportTo": "~"}, nil},
+		SvcPortName: []string{"", "", "", "", "", "", "", "", "", "", "", "tcp"},
 	},
 	{
 		ID: "k-hhttp", Name: "hhttp", Ns: "ns2", Headless: true, PortName: "http", Port: 8080, App: "hh",
@@ -110,6 +133,19 @@ func init() {
 		ID: "k-wepod", Name: "wepod", Ns: "ns1", App: "we", PodOnly: true,
 		Variants: [][]podDef{{pd("wepod", "10.30.0.9", "we-sa")}, {pd("wepod", "10.30.0.9", "we-sa3")}},
 	})
+	// the gateway of network net2 (label topology.istio.io/network): endpoints on net2 are reached through its address
+	kubeUniverse = append(kubeUniverse, kubeSvcDef{
+		ID: "k-nwgw", Name: "nwgw", Ns: "istio-system", ClusterIP: "10.50.0.8", PortName: "tls", Port: 15443, App: "nwgw",
+		Variants: [][]podDef{{}, {}}, SvcLabels: map[string]string{"topology.istio.io/network": "net2"}, LBIP: []string{"1.2.3.4", "1.2.3.5"},
+	})
+	// a SECOND EndpointSlice: 0 = of ksvc (port http/80), 1 = the same slice relabelled to hsvc (port tcp/9090),
+	// 2 = of ksvc with its endpoint not ready
+	kubeUniverse = append(kubeUniverse, kubeSvcDef{
+		ID: "k-slice2", Name: "extra", Ns: "ns1", App: "k", SliceOnly: true,
+		Variants: [][]podDef{{pd("k9", "10.41.0.9", "sa-k9")}, {pd("k9", "10.41.0.9", "sa-k9")},
+			{{Name: "k9", IP: "10.41.0.9", SA: "sa-k9", NotReady: true}}},
+		SliceService: []string{"ksvc", "hsvc", "ksvc"}, SlicePort: []int32{80, 9090, 80}, SlicePortName: []string{"http", "tcp", "http"},
+	})
 	for i := range kubeUniverse {
 		kubeIndex[kubeUniverse[i].ID] = &kubeUniverse[i]
 	}
@@ -132,6 +168,13 @@ func (d *kubeSvcDef) targetPort(variant int) int32 {
 	return d.Port
 }
 
+func (d *kubeSvcDef) portName(variant int) string {
+	if variant >= 0 && variant < len(d.SvcPortName) && d.SvcPortName[variant] != "" {
+		return d.SvcPortName[variant]
+	}
+	return d.PortName
+}
+
 func (d *kubeSvcDef) service(variant int) *corev1.Service {
 	var ann map[string]string
 	if variant >= 0 && variant < len(d.SvcAnnotations) {
@@ -141,13 +184,18 @@ func (d *kubeSvcDef) service(variant int) *corev1.Service {
 		ObjectMeta: metav1.ObjectMeta{Name: d.Name, Namespace: d.Ns, Annotations: ann, CreationTimestamp: metav1.NewTime(baseTime)},
 		Spec: corev1.ServiceSpec{
 			Selector: map[string]string{"app": d.App},
-			Ports:    []corev1.ServicePort{{Name: d.PortName, Port: d.Port, TargetPort: intstr.FromInt32(d.targetPort(variant)), Protocol: corev1.ProtocolTCP}},
+			Ports:    []corev1.ServicePort{{Name: d.portName(variant), Port: d.Port, TargetPort: intstr.FromInt32(d.targetPort(variant)), Protocol: corev1.ProtocolTCP}},
 		},
 	}
 	if d.Headless {
 		s.Spec.ClusterIP = corev1.ClusterIPNone
 	} else {
 		s.Spec.ClusterIP = d.ClusterIP
+	}
+	s.Labels = d.SvcLabels
+	if variant >= 0 && variant < len(d.LBIP) {
+		s.Spec.Type = corev1.ServiceTypeLoadBalancer
+		s.Status.LoadBalancer.Ingress = []corev1.LoadBalancerIngress{{IP: d.LBIP[variant]}}
 	}
 	return s
 }
@@ -173,11 +221,15 @@ func (d *kubeSvcDef) pod(p podDef) *corev1.Pod {
 
 func (d *kubeSvcDef) slice(pods []podDef, variant int) *discoveryv1.EndpointSlice {
 	tp := d.targetPort(variant)
+	svcName, pn := d.Name, d.portName(variant)
+	if d.SliceOnly {
+		svcName, pn, tp = d.SliceService[variant], d.SlicePortName[variant], d.SlicePort[variant]
+	}
 	es := &discoveryv1.EndpointSlice{
-		ObjectMeta: metav1.ObjectMeta{Name: d.Name + "-1", Namespace: d.Ns, Labels: map[string]string{discoveryv1.LabelServiceName: d.Name},
+		ObjectMeta: metav1.ObjectMeta{Name: d.Name + "-1", Namespace: d.Ns, Labels: map[string]string{discoveryv1.LabelServiceName: svcName},
 			CreationTimestamp: metav1.NewTime(baseTime)},
 		AddressType: discoveryv1.AddressTypeIPv4,
-		Ports:       []discoveryv1.EndpointPort{{Name: &d.PortName, Port: &tp}},
+		Ports:       []discoveryv1.EndpointPort{{Name: &pn, Port: &tp}},
 	}
 	for _, p := range pods {
 		// a pod that is not ready (and not shutting down): all three conditions set, as current API servers do
@@ -204,7 +256,7 @@ func kubeObjects(w world) []runtime.Object {
 		if !ok {
 			continue
 		}
-		if !d.PodOnly {
+		if !d.PodOnly && !d.SliceOnly {
 			out = append(out, d.service(v))
 		}
 		if !d.SharedPods {
@@ -242,92 +294,133 @@ func applyKube(c kubelib.Client, op, id string, variant int, cur world) error {
 	if had && !d.SharedPods {
 		oldPods = d.Variants[old]
 	}
-	switch op {
-	case "create":
-		if !d.PodOnly {
-			if _, err := k.CoreV1().Services(d.Ns).Create(ctx, d.service(variant), metav1.CreateOptions{}); err != nil {
-				return err
+	hasSvc, hasSlice := !d.PodOnly && !d.SliceOnly, !d.PodOnly
+	in := func(ps []podDef, n string) bool {
+		for _, p := range ps {
+			if p.Name == n {
+				return true
 			}
 		}
-		for _, p := range d.Variants[variant] {
-			if d.SharedPods {
-				break
-			}
-			if _, err := k.CoreV1().Pods(d.Ns).Create(ctx, d.pod(p), metav1.CreateOptions{}); err != nil {
-				return err
-			}
-		}
-		if d.PodOnly {
+		return false
+	}
+	notFoundOK := func(err error) error {
+		if kerrors.IsNotFound(err) {
 			return nil
 		}
-		_, err := k.DiscoveryV1().EndpointSlices(d.Ns).Create(ctx, d.slice(d.Variants[variant], variant), metav1.CreateOptions{})
 		return err
-	case "update":
-		newPods := d.Variants[variant]
-		in := func(ps []podDef, n string) bool {
-			for _, p := range ps {
-				if p.Name == n {
-					return true
-				}
-			}
-			return false
+	}
+	// the three parts of a composite object; the ORDER in which their events reach istiod is chosen per history
+	// (kubeOrder): a kubelet / endpointslice controller / user produce them independently
+	var svcAct, podAct, sliceAct, podDel func() error
+	switch op {
+	case "create":
+		svcAct = func() error {
+			_, err := k.CoreV1().Services(d.Ns).Create(ctx, d.service(variant), metav1.CreateOptions{})
+			return err
 		}
-		for _, p := range newPods {
-			if d.SharedPods {
-				break
-			}
-			if !in(oldPods, p.Name) {
+		podAct = func() error {
+			for _, p := range d.Variants[variant] {
+				if d.SharedPods {
+					break
+				}
 				if _, err := k.CoreV1().Pods(d.Ns).Create(ctx, d.pod(p), metav1.CreateOptions{}); err != nil {
 					return err
 				}
-				continue
 			}
-			// the pod stays: its labels or service account may have changed
-			for _, o := range oldPods {
-				if o.Name == p.Name && (o.SA != p.SA || fmt.Sprint(o.Labels) != fmt.Sprint(p.Labels)) {
-					if _, err := k.CoreV1().Pods(d.Ns).Update(ctx, d.pod(p), metav1.UpdateOptions{}); err != nil {
+			return nil
+		}
+		sliceAct = func() error {
+			_, err := k.DiscoveryV1().EndpointSlices(d.Ns).Create(ctx, d.slice(d.Variants[variant], variant), metav1.CreateOptions{})
+			return err
+		}
+	case "update":
+		newPods := d.Variants[variant]
+		svcAct = func() error {
+			if had && !reflect.DeepEqual(d.service(old), d.service(variant)) {
+				_, err := k.CoreV1().Services(d.Ns).Update(ctx, d.service(variant), metav1.UpdateOptions{})
+				return err
+			}
+			return nil
+		}
+		podAct = func() error {
+			for _, p := range newPods {
+				if d.SharedPods {
+					break
+				}
+				if !in(oldPods, p.Name) {
+					if _, err := k.CoreV1().Pods(d.Ns).Create(ctx, d.pod(p), metav1.CreateOptions{}); err != nil {
+						return err
+					}
+					continue
+				}
+				// the pod stays: its labels or service account may have changed
+				for _, o := range oldPods {
+					if o.Name == p.Name && (o.SA != p.SA || fmt.Sprint(o.Labels) != fmt.Sprint(p.Labels)) {
+						if _, err := k.CoreV1().Pods(d.Ns).Update(ctx, d.pod(p), metav1.UpdateOptions{}); err != nil {
+							return err
+						}
+					}
+				}
+			}
+			return nil
+		}
+		sliceAct = func() error {
+			_, err := k.DiscoveryV1().EndpointSlices(d.Ns).Update(ctx, d.slice(newPods, variant), metav1.UpdateOptions{})
+			return err
+		}
+		podDel = func() error {
+			for _, p := range oldPods {
+				if !in(newPods, p.Name) {
+					if err := notFoundOK(k.CoreV1().Pods(d.Ns).Delete(ctx, p.Name, metav1.DeleteOptions{})); err != nil {
 						return err
 					}
 				}
 			}
-		}
-		if d.PodOnly {
 			return nil
 		}
-		if had && (d.targetPort(old) != d.targetPort(variant) || fmt.Sprint(d.service(old).Annotations) != fmt.Sprint(d.service(variant).Annotations)) {
-			if _, err := k.CoreV1().Services(d.Ns).Update(ctx, d.service(variant), metav1.UpdateOptions{}); err != nil {
-				return err
-			}
-		}
-		if _, err := k.DiscoveryV1().EndpointSlices(d.Ns).Update(ctx, d.slice(newPods, variant), metav1.UpdateOptions{}); err != nil {
-			return err
-		}
-		for _, p := range oldPods {
-			if !in(newPods, p.Name) {
-				if err := k.CoreV1().Pods(d.Ns).Delete(ctx, p.Name, metav1.DeleteOptions{}); err != nil && !kerrors.IsNotFound(err) {
+	case "delete":
+		svcAct = func() error { return k.CoreV1().Services(d.Ns).Delete(ctx, d.Name, metav1.DeleteOptions{}) }
+		podAct = func() error {
+			for _, p := range oldPods {
+				if err := notFoundOK(k.CoreV1().Pods(d.Ns).Delete(ctx, p.Name, metav1.DeleteOptions{})); err != nil {
 					return err
 				}
 			}
-		}
-		return nil
-	case "delete":
-		if !d.PodOnly {
-			if err := k.DiscoveryV1().EndpointSlices(d.Ns).Delete(ctx, d.Name+"-1", metav1.DeleteOptions{}); err != nil && !kerrors.IsNotFound(err) {
-				return err
-			}
-		}
-		for _, p := range oldPods {
-			if err := k.CoreV1().Pods(d.Ns).Delete(ctx, p.Name, metav1.DeleteOptions{}); err != nil && !kerrors.IsNotFound(err) {
-				return err
-			}
-		}
-		if d.PodOnly {
 			return nil
 		}
-		return k.CoreV1().Services(d.Ns).Delete(ctx, d.Name, metav1.DeleteOptions{})
+		sliceAct = func() error {
+			return notFoundOK(k.DiscoveryV1().EndpointSlices(d.Ns).Delete(ctx, d.Name+"-1", metav1.DeleteOptions{}))
+		}
+	default:
+		return fmt.Errorf("unknown op %s", op)
 	}
-	return fmt.Errorf("unknown op %s", op)
+	if !hasSvc {
+		svcAct = nil
+	}
+	if !hasSlice {
+		sliceAct = nil
+	}
+	// order 0 is the usual one (create: Service, pods, slice; update: pods, Service, slice, removed pods; delete: slice,
+	// pods, Service); 1..3 permute the parts
+	orders := map[string][4][]func() error{
+		"create": {{svcAct, podAct, sliceAct}, {podAct, sliceAct, svcAct}, {sliceAct, svcAct, podAct}, {sliceAct, podAct, svcAct}},
+		"update": {{podAct, svcAct, sliceAct, podDel}, {sliceAct, podAct, svcAct, podDel}, {svcAct, sliceAct, podAct, podDel}, {podAct, podDel, sliceAct, svcAct}},
+		"delete": {{sliceAct, podAct, svcAct}, {svcAct, sliceAct, podAct}, {podAct, sliceAct, svcAct}, {svcAct, podAct, sliceAct}},
+	}
+	for _, act := range orders[op][kubeOrder%4] {
+		if act == nil {
+			continue
+		}
+		if err := act(); err != nil {
+			return err
+		}
+	}
+	return nil
 }
+
+// kubeOrder: the order in which the parts of a composite kube object are written in the current history (case flag
+// `order=<n>`); the cold-started server gets all objects at once.
+var kubeOrder int
 
 // ---------------------------------------------------------------- Gateway API
 
